@@ -115,6 +115,9 @@ struct Variant {
     seed: u32,
     tone: u32,
     dotted: bool,
+    /// GSUB layout 1: vjmo and tjmo SHARE a lookup (role 0 -> 2); tjmo then adds a second lookup (role 2 -> 3).
+    /// The glyphs every role shows are the same as in layout 0 (one private lookup per feature).
+    shared: bool,
 }
 
 fn mix(seed: u32, cp: u32) -> u32 {
@@ -270,35 +273,51 @@ fn build_font(var: &Variant, rep: &[u32]) -> Vec<u8> {
     be16(&mut gsub, 0);
     be16(&mut gsub, 1);
     be16(&mut gsub, 2);
-    // FeatureList (38 bytes): count, 3 records (6 each), 3 feature tables (6 each)
-    be16(&mut gsub, 3);
-    let order: [(&[u8; 4], u16); 3] = [(b"ljmo", 0), (b"tjmo", 2), (b"vjmo", 1)];
-    for (i, (tag, _)) in order.iter().enumerate() {
-        gsub.extend_from_slice(*tag);
-        be16(&mut gsub, 20 + 6 * i as u16);
+    // FeatureList: count, 3 records (6 each), 3 feature tables (4 + 2 per lookup index)
+    let order: [(&[u8; 4], Vec<u16>); 3] = if var.shared {
+        [(b"ljmo", vec![0]), (b"tjmo", vec![1, 2]), (b"vjmo", vec![1])]
+    } else {
+        [(b"ljmo", vec![0]), (b"tjmo", vec![2]), (b"vjmo", vec![1])]
+    };
+    let mut flist = Vec::new();
+    be16(&mut flist, 3);
+    let mut foff = 20u16;
+    for (tag, lks) in order.iter() {
+        flist.extend_from_slice(*tag);
+        be16(&mut flist, foff);
+        foff += 4 + 2 * lks.len() as u16;
     }
-    for (_, lookup) in order.iter() {
-        be16(&mut gsub, 0);
-        be16(&mut gsub, 1);
-        be16(&mut gsub, *lookup);
+    for (_, lks) in order.iter() {
+        be16(&mut flist, 0);
+        be16(&mut flist, lks.len() as u16);
+        for l in lks {
+            be16(&mut flist, *l);
+        }
     }
-    // LookupList: count, 3 offsets, 3 lookups of 8 + 6 + 10 bytes; lookup r adds (r + 1) * n
+    // patch the LookupList offset in the header (FeatureList length depends on the layout)
+    let ll = 10 + 30 + flist.len() as u16;
+    gsub[8..10].copy_from_slice(&ll.to_be_bytes());
+    gsub.extend_from_slice(&flist);
+    // LookupList: count, 3 offsets, 3 single substitutions (format 1: delta) of 8 + 6 + 10 bytes
+    // layout 0: lookup r adds (r + 1) * n to the plain glyphs; layout 1: lookup 0 adds n, lookup 1 adds 2n to the plain
+    // glyphs, lookup 2 adds n to the role-2 glyphs
     be16(&mut gsub, 3);
     for r in 0..3u16 {
         be16(&mut gsub, 8 + 24 * r);
     }
     for r in 0..3u32 {
+        let (delta, first) = if var.shared && r == 2 { (n, 1 + 2 * n) } else { ((r + 1) * n, 1) };
         be16(&mut gsub, 1); // type: single
         be16(&mut gsub, 0);
         be16(&mut gsub, 1);
         be16(&mut gsub, 8);
         be16(&mut gsub, 1); // format 1
         be16(&mut gsub, 6);
-        be16(&mut gsub, (((r + 1) * n) & 0xFFFF) as u16);
+        be16(&mut gsub, (delta & 0xFFFF) as u16);
         be16(&mut gsub, 2); // coverage format 2
         be16(&mut gsub, 1);
-        be16(&mut gsub, 1);
-        be16(&mut gsub, n as u16);
+        be16(&mut gsub, first as u16);
+        be16(&mut gsub, (first + n - 1) as u16);
         be16(&mut gsub, 0);
     }
     let mut tables: Vec<(&[u8; 4], Vec<u8>)> = vec![
@@ -359,12 +378,13 @@ fn serve() {
         if p.is_empty() {
             continue;
         }
-        if p[0] == "font" && p.len() == 5 {
+        if p[0] == "font" && (p.len() == 5 || p.len() == 6) {
             let var = Variant {
                 kind: p[1].parse().unwrap_or(0),
                 seed: p[2].parse().unwrap_or(0),
                 tone: p[3].parse().unwrap_or(0),
                 dotted: p[4] == "1",
+                shared: p.len() == 6 && p[5] == "1",
             };
             rep = var.repertoire();
             font = build_font(&var, &rep);
